@@ -19,7 +19,7 @@ Record lcase := mkLC {
   l_pre_pulls : nat;                (* leaf items pulled by iter(e[a:]) / iter(e[a:b]) before the first next() *)
   l_bdone : bool }.                 (* e[a:b] reached StopIteration under the harness's pull cap *)
 
-Definition FUEL : nat := 400.
+Definition FUEL : nat := 4000.
 
 Definition cnt_eqb (x y : list nat) : bool := list_eqb Nat.eqb x y.
 Definition tr_eqb (x y : list (ivl * list nat)) : bool :=
